@@ -10,6 +10,7 @@
 //!   VERIF_REC_SCRIPT = comma separated outcomes indexed by invocation number (seq); outcomes:
 //!       N (exit status N) | kN (kill self with signal N). Beyond the list: exit 0.
 //!   VERIF_REC_FN = mod:M  -> exit status = crc32-chain(argv[1..]) % M
+//!   VERIF_REC_FN = outcome6 -> crc32-chain % 6: 0,1 exit 0; 2 exit 1; 3 exit 3; 4 SIGKILL; 5 SIGTERM
 //! The invocation number is kept in "$VERIF_REC_LOG.n" (callers run children one at a time).
 
 use std::ffi::OsString;
@@ -93,6 +94,23 @@ fn main() {
         if let Some(m) = f.strip_prefix("mod:") {
             let m: u32 = m.parse().unwrap_or(2);
             std::process::exit((chain % m) as i32);
+        }
+        // outcome = chain % 6: 0,1 -> exit 0; 2 -> exit 1; 3 -> exit 3; 4 -> killed by SIGKILL; 5 -> killed by SIGTERM
+        if f == "outcome6" {
+            match chain % 6 {
+                0 | 1 => std::process::exit(0),
+                2 => std::process::exit(1),
+                3 => std::process::exit(3),
+                k => {
+                    let sig = if k == 4 { libc::SIGKILL } else { libc::SIGTERM };
+                    unsafe {
+                        libc::signal(sig, libc::SIG_DFL);
+                        libc::kill(libc::getpid(), sig);
+                    }
+                    std::thread::sleep(std::time::Duration::from_secs(5));
+                    std::process::exit(99);
+                }
+            }
         }
     }
     if let Ok(script) = std::env::var("VERIF_REC_SCRIPT") {
